@@ -481,6 +481,12 @@ WIDE = {
     # reads every one): 25 times the members of the other collections
     "integers with long heads": lambda n: cbor2.dumps(cbor2.CBORTag(107, [255, 65535, 70000] * (8 * n))),
     "parameter values with long heads": lambda n: _envelope(man={1: 1, 2: 1, 3: cbor2.dumps({2: [[b"M"]]}), 7: cbor2.dumps([20, {14: 300}] * (4 * n))}),
+    # semantic tags whose decoding is not linear in cbor2 / the standard library: a decimal fraction or bigfloat with a bignum mantissa
+    # (as an envelope map key), a rational, a MIME message with one long header (F24)
+    "decimal fraction mantissa bytes": lambda n: b"\xd8\x6b\xa1\xc4\x82\x00\xc2" + bytes([0x5A]) + (10 * n).to_bytes(4, "big") + b"\xff" * (10 * n) + b"\x00",
+    "bigfloat mantissa bytes": lambda n: b"\xd8\x6b\xa1\xc5\x82\x00\xc2" + bytes([0x5A]) + (10 * n).to_bytes(4, "big") + b"\xff" * (10 * n) + b"\x00",
+    "rational numerator bytes": lambda n: b"\xd8\x6b\xa1\xd8\x1e\x82\xc2" + bytes([0x5A]) + (10 * n).to_bytes(4, "big") + b"\xff" * (10 * n) + b"\x03\x00",
+    "MIME header bytes": lambda n: b"\xd8\x24" + bytes([0x7A]) + (2 * n + 8).to_bytes(4, "big") + b"A: " + b"b " * n + b"\r\n\r\nx",
     "try-each alternatives": lambda n: _envelope(man={1: 1, 2: 1, 3: cbor2.dumps({2: [[b"M"]]}), 7: cbor2.dumps([15, [cbor2.dumps([12, 0])] * n])}),
 }
 
@@ -534,7 +540,8 @@ def scan_stream(ck):
     rng = ck.rng
     fails = []
     heads = [bytes([0xD8, 25]), bytes([0xD8, 28]), bytes([0xD8, 29]), bytes([0xD9, 0x01, 0x00]), bytes([0xD9, 0, 28]), bytes([0xDA, 0, 0, 0, 29]),
-             bytes([0xDB] + [0] * 7 + [25]), bytes([0xDA, 0, 0, 1, 0]), bytes([0xD8, 24]), bytes([0xD8, 30]), bytes([0xD9, 0x01, 0x01]), bytes([0xC6]), bytes([0xD8, 107])]
+             bytes([0xDB] + [0] * 7 + [25]), bytes([0xDA, 0, 0, 1, 0]), bytes([0xD8, 24]), bytes([0xC4]), bytes([0xC5]), bytes([0xD8, 30]), bytes([0xD8, 35]),
+             bytes([0xD8, 36]), bytes([0xD9, 0, 4]), bytes([0xC2]), bytes([0xC1]), bytes([0xD8, 30]), bytes([0xD9, 0x01, 0x01]), bytes([0xC6]), bytes([0xD8, 107])]
     inputs = [share_bomb(d, tag_width=w) for d in (1, 3) for w in (1, 2, 4, 8)] + [stringref_bomb(60), stringref_bomb_wide(90)]
     inputs += [b"", b"\xd8", b"\xd9\x1c", b"\xd9\x00", b"\xda\x00\x00\x00", b"\xdb\x00\x00\x00\x00\x00\x00\x00", b"\xff", b"\x9f\xd8\x1c\x00\xff",
                b"\x5f\x42\xd8\x1c\xff\xd8\x1c\x00", b"\x7f\x62\xd8\x1c\xff", b"\x7f\x62\xd8\x1c\xff\xd8\x1d\x00", b"\xbf\xd8\x1d\x00\x00\xff",
